@@ -115,6 +115,7 @@ TRANSPARENT = {
     ("AsMut", "as_mut"), ("AsRef", "as_ref"),
     ("Borrow", "borrow"), ("BorrowMut", "borrow_mut"),
     ("Option", "as_mut"), ("Option", "as_ref"),   # Option<&T> view of the same payload
+    ("Option", "as_pin_mut"), ("Option", "as_pin_ref"),   # Option<Pin<&mut T>> view of the same payload (Pin<&mut Option<T>> receiver)
     ("ManuallyDrop", "deref"), ("ManuallyDrop", "deref_mut"),
     ("core::future::get_context", "get_context"),  # async lowering: ResumeTy -> &mut Context
 }
